@@ -26,10 +26,10 @@ def run(ctx):
            timeout=tmo, twin_fn='tw_decision', twin_pre=[{'mode_i': 0, 'branch': 1, 'allowed': 1}, 'len(path) == 3'],
            desc='the slash block of dispatch on a stub route and a symbolic path: one redirect to url_root + quoted canonical path (+ ?query) iff redirect mode, '
                 'branch, method admitted, path not canonical; rewrite executes the route; strict records a non-breaking 404; nothing for inadmissible methods'),
-        Ob('one_hop', 'ob_one_hop', '', packed=[('app_i', 7), ('kind_i', 5), ('seg_i', 12 if T else 9), ('method_i', 4 if T else 2), ('seg2_i', 2), ('sl', 3), ('trail', 3), ('qs_i', 5 if T else 4)],
-           cells=[('app%d_kind%d_seg%d' % (a, k, s), [{'app_i': a, 'kind_i': k, 'seg_i': s}]) for a in range(7) for k in range(5) for s in range(NSG if T else 9)
+        Ob('one_hop', 'ob_one_hop', '', packed=[('app_i', 7), ('kind_i', 6), ('seg_i', 12 if T else 9), ('method_i', 4 if T else 2), ('seg2_i', 2), ('sl', 3), ('trail', 3), ('qs_i', 5 if T else 4)],
+           cells=[('app%d_kind%d_seg%d' % (a, k, s), [{'app_i': a, 'kind_i': k, 'seg_i': s}]) for a in range(7) for k in range(6) for s in range(NSG if T else 9)
                   if (a == 0 or k == 1 or (a >= 5 and k == 3))] if not T else
-                 [('app%d_kind%d_seg%d_m%d' % (a, k, s, m), [{'app_i': a, 'kind_i': k, 'seg_i': s, 'method_i': m}]) for a in range(7) for k in range(5) for s in range(12) for m in range(4)
+                 [('app%d_kind%d_seg%d_m%d' % (a, k, s, m), [{'app_i': a, 'kind_i': k, 'seg_i': s, 'method_i': m}]) for a in range(7) for k in range(6) for s in range(12) for m in range(4)
                   if (a < 3 or k == 1 or (a >= 5 and k == 3))],
            timeout=tmo, confirm='confirm_one_hop',
            desc='end to end on real applications (redirect / rewrite / strict; slash mode inherited and not inherited through embedding): static, single-binding, '
